@@ -100,13 +100,13 @@ PROPS = {
                 rule='CTR programs: initial value 0..3 + prologue increments, 2..4 threads add(-1) / add(0) / value / wait / wait_n; oracle = linearizability of returned values against an integer, wait results against the value history, release at zero; non-trivial = a wait was in progress when the zeroing decrement started, or >=2 waiters were queued at zero; distinct = distinct (program hash, realized trace hash)'),
     'C11': dict(num=11, sim=[(f, 1) for f in ('WAITN', 'MON', 'NOTE', 'MON', 'WAITN', 'MON', 'WAITN', 'MON', 'NOTE', 'MON', 'WAITN', 'MON', 'WAITN', 'MON', 'WAITN', 'MON')], quick=500000, thorough=2000000, flavours_thorough=['gcc_new', 'c11', 'cpp11'],
                 rule='WAITN programs: 1..2 nsync_wait_n callers over 1..5 objects (note / counter / cv / logging probe waitable; stack and heap bookkeeping), actors making objects ready before/during/after registration, deadlines past/future/none, with and without a logging mutex; MON programs with nsync_wait_n on a cv; non-trivial = a make-ready operation overlapped a call that lists the object; distinct = distinct (program hash, realized trace hash)'),
-    'C12': dict(num=12, level='fault_enumeration', sim=[('SEM', 1)], quick=60000, thorough=1500000, flavours_thorough=['gcc_new', 'cpp11'],
+    'C12': dict(fuzz_runs_thorough=100000, num=12, level='fault_enumeration', sim=[('SEM', 1)], quick=60000, thorough=1500000, flavours_thorough=['gcc_new', 'cpp11'],
                 rule='SEM programs: the real nsync_semaphore_futex.c on the modelled futex; one waiter with a generated sequence of P / timed P, 1..2 posters, clock moves and either a generated vector of up to 8 injected futex faults (EINTR, EAGAIN, premature ETIMEDOUT, spurious 0) or, for one case in five, EVERY placement of up to 2 faults over the first 6 futex waits x 3 kinds (154 executions of that program and schedule; evaluations counts executions); non-trivial = a fault was consumed, the waiter blocked, or a CAS on the count failed (post landed between load and futex call); distinct = distinct (program hash incl. fault vector, realized trace hash)'),
-    'C14': dict(num=14, sim=[('STARVE', 1)], quick=20000, thorough=400000, flavours_thorough=['gcc_new'],
+    'C14': dict(fuzz_runs_thorough=200000, num=14, sim=[('STARVE', 1)], quick=20000, thorough=400000, flavours_thorough=['gcc_new'],
                 rule='STARVE programs: victim (writer among readers / writer among writers / reader among writers) against 2..4 bargers x 40..200 fresh acquire/release rounds under an adversarial scheduling policy with generated perturbations (3/4 of the cases) or RANDOM/PCT schedules; oracle = number of times the victim goes back to sleep inside one lock call <= 31+2T+2; non-trivial = the victim slept >= 31 times (the long-wait escalation engaged); distinct = distinct (scenario+policy parameters, realized trace hash)'),
-    'C16': dict(num=16, sim=[(None, 1)], quick=150000, thorough=1000000, flavours_thorough=['gcc_new', 'cpp11'],
+    'C16': dict(fuzz_runs_thorough=300000, num=16, sim=[(None, 1)], quick=150000, thorough=1000000, flavours_thorough=['gcc_new', 'cpp11'],
                 rule='LOCK and MON programs with debug-state callers on the same mutex / cv (oracles of C01, C02, C04 unchanged) and DEBUGBUF programs: frozen mutex/cv states with 0..3 queued waiters, all four functions for EVERY buffer size 0..80 with canaries and the output(n) vs output(1024) relation; non-trivial = a debug call ran while some acquisition went through a slow path (schedules) or truncation occurred (inputs); distinct = distinct (program hash, realized trace hash)'),
-    'C19': dict(num=19, level='fault_enumeration', sim=[('ALLOC', 1)], quick=60000, thorough=1000000, flavours_thorough=['gcc_new', 'cpp11'],
+    'C19': dict(fuzz_runs_thorough=300000, num=19, level='fault_enumeration', sim=[('ALLOC', 1)], quick=60000, thorough=1000000, flavours_thorough=['gcc_new', 'cpp11'],
                 rule='ALLOC scripts (trees of <=6 notes with deadlines none/past/future, <=3 counters, notifies); for each script EVERY allocation from note.c / counter.c call sites is failed in turn (exhaustive per script); evaluations counts executions (script x fault position); non-trivial = a script in which some constructor returned NULL while other objects existed; distinct = distinct scripts'),
     'C15': dict(num=15, sim=[('MON', 1)], quick=150000, thorough=1000000, flavours_thorough=['gcc_new', 'cpp11'],
                 rule='(simulated twin of C15) MON programs whose past deadlines include instants before the epoch, on the modelled kernel futex (EINVAL for tv_sec<0)'),
